@@ -106,9 +106,13 @@ def scenario(rng, idx):
     extra = {n: f"new-{n}".encode() for n in ("x", "sub/y") if rng.random() < 0.25}
     lost = [n for n in ws_files if rng.random() < 0.3]
     lose_dir_obj = rng.random() < 0.15
+    dangling = rng.choice([None, None, None, None, "dangling", "sub/dangling"])  # a symlink whose target is gone, left in the workspace
+    if dangling and not edits:
+        n0 = sorted(ws_files)[0]
+        edits = {n0: f"edited-{n0}-next-to-a-dangling-link".encode()}
     corrupt = [n for n in ws_files if rng.random() < 0.2]          # cache objects tampered with after they were added
     corrupt_target = rng.random() < 0.3
-    return dict(corrupt=corrupt, corrupt_target=corrupt_target, cls=cls.__name__, link=link, ws_files=ws_files, ws_is_file=ws_is_file, target=target_kind, relink=relink, prompt=prompt,
+    return dict(dangling=dangling, corrupt=corrupt, corrupt_target=corrupt_target, cls=cls.__name__, link=link, ws_files=ws_files, ws_is_file=ws_is_file, target=target_kind, relink=relink, prompt=prompt,
                 edits=edits, extra=extra, lost=lost, lose_dir_obj=lose_dir_obj)
 
 
@@ -152,6 +156,11 @@ def run_one(sc):
                 open(p, "wb").write(data)
             for n in sc["lost"]:
                 drop_object(cache, base[n])
+            if sc.get("dangling"):
+                p = os.path.join(ws, sc["dangling"])
+                os.makedirs(os.path.dirname(p), exist_ok=True)
+                if not os.path.lexists(p):
+                    os.symlink(os.path.join(tmp, "no-such-target"), p)
         elif sc["lost"]:
             drop_object(cache, base)
         if sc["link"] == "symlink":
@@ -210,7 +219,7 @@ def main():
             failures.append({"scenario": {k: (v if not isinstance(v, dict) else {a: b.decode() for a, b in v.items()}) for k, v in sc.items()}, **rep})
     print(json.dumps({
         "evaluations": evaluations, "distinct_nontrivial": nontrivial, "n_failures": len(failures), "failures": failures[:5],
-        "bound": f"{n} seeded workspace histories: <=4 tracked files in <=3 directory levels, edits/additions/lost or tampered cache objects, "
+        "bound": f"{n} seeded workspace histories: <=4 tracked files in <=3 directory levels, edits/additions/dangling symlinks/lost or tampered cache objects, "
                  "targets none/same/other/file/subset, 2 store classes x 3 link types, relink on/off, prompt absent/declining, force never",
     }))
 
